@@ -31,6 +31,7 @@ func init() {
 	ruleText["R13.3"] = "no function or variable bound in a default table has the real *log.Logger among its result/variable types"
 	ruleText["R13.4"] = "each exported function declared in os/env.go whose static callees reach the syscall environment primitives is overridden by fixStdlib inside the not-unrestricted branch by a closure that references no object of os/syscall other than os.Expand and only Interpreter.env state"
 	ruleText["R13.5"] = "each exported package-level function of fmt that uses os.Stdout/os.Stdin, of log that uses the package-level std logger, of flag that uses flag.CommandLine, when bound in the default table, is overridden by fixStdlib with a value built from the interpreter's stdin/stdout/stderr/args; os.Args is bound to &interp.args; the print builtins write to the interpreter's stdout"
+	ruleText["R13.7"] = "in (*Interpreter).Use every condition guarding the call of fixStdlib mentions neither the receiver nor a local derived from it: the overrides are re-applied whenever the standard library tables are copied in again"
 	ruleText["R13.6"] = "every map stored into Interpreter.binPkg[k] is created by the storing function (never the Exports argument)"
 }
 
@@ -91,6 +92,7 @@ func runC13(c *Config, r *Report) {
 	c13R1cmd(c, r)
 	c13Std(c, ic, r, stdlibPk, tablesByRelease[22], ovMap, restricted)
 	checkBinPkgOwnership(ic, r, "R13.6")
+	c13UseReapplies(ic, r)
 }
 
 // R13.1: tables of package stdlib.
@@ -1042,3 +1044,67 @@ func c13EnvInit(ic *IC, r *Report) {
 }
 
 var _ = constant.MakeBool
+
+// c13UseReapplies: Use copies the symbols it is given over the interpreter's tables, also over
+// entries that fixStdlib had replaced (streams, environment, exit functions). Every Use that
+// is given the standard library must therefore re-apply fixStdlib: the condition guarding the
+// call depends on the Exports argument only, never on the state of the interpreter ("already
+// done" flags skip the re-application while the copy loop has just restored the raw symbols).
+func c13UseReapplies(ic *IC, r *Report) {
+	fi := ic.fn(r, "Interpreter.Use")
+	if fi == nil {
+		return
+	}
+	info := ic.Info
+	var recv types.Object
+	if fi.Decl.Recv != nil && len(fi.Decl.Recv.List) > 0 && len(fi.Decl.Recv.List[0].Names) > 0 {
+		recv = info.ObjectOf(fi.Decl.Recv.List[0].Names[0])
+	}
+	// locals derived from the receiver's state
+	tainted := map[types.Object]bool{}
+	mentionsRecv := func(e ast.Node) bool {
+		found := false
+		ast.Inspect(e, func(m ast.Node) bool {
+			if id, ok := m.(*ast.Ident); ok {
+				if o := info.ObjectOf(id); o != nil && (o == recv || tainted[o]) {
+					found = true
+				}
+			}
+			return true
+		})
+		return found
+	}
+	for round := 0; round < 3; round++ {
+		ast.Inspect(fi.Decl.Body, func(m ast.Node) bool {
+			as, ok := m.(*ast.AssignStmt)
+			if !ok {
+				return true
+			}
+			for _, rhs := range as.Rhs {
+				if mentionsRecv(rhs) {
+					for _, l := range as.Lhs {
+						if id, ok := l.(*ast.Ident); ok && info.ObjectOf(id) != nil {
+							tainted[info.ObjectOf(id)] = true
+						}
+					}
+				}
+			}
+			return true
+		})
+	}
+	calls := callsIn(info, fi.Decl.Body, false, "interp.fixStdlib")
+	if len(calls) == 0 {
+		r.Errorf("R13.7: (*Interpreter).Use does not call fixStdlib")
+		return
+	}
+	for i, c := range calls {
+		var bad []string
+		for _, g := range pathGuards(fi.Decl.Body, c) {
+			if mentionsRecv(g.cond) {
+				bad = append(bad, types.ExprString(g.cond))
+			}
+		}
+		r.Check(len(bad) == 0, "R13.7", fmt.Sprintf("Interpreter.Use/fixStdlib-call#%d/depends-on-the-argument-only", i+1), ic.pos(c.Pos()), "the re-application of the per-interpreter overrides depends on the Exports argument only",
+			"(*Interpreter).Use re-applies fixStdlib only under "+strings.Join(bad, " and ")+", a condition on the interpreter's own state: a second Use of the standard library copies the raw fmt/log/os symbols over the virtualised ones and then skips the re-application, so the script reaches the host's streams, arguments, environment and the real os.Exit")
+	}
+}
